@@ -676,6 +676,9 @@ pub fn stride_walks(env: &Env, out: &mut Out, sub: &str, walks: u32, stream: u64
       Err(_) => o.note("strided walk thread panicked outside a guarded call".to_string()),
     }
   };
+  // the two ends of the domain, always: the first and the last 40 positions walked inwards
+  run_case(env, out, &walk_sub, &Case::ints(&[lo, 1, 40]), &walker);
+  run_case(env, out, &walk_sub, &Case::ints(&[hi - 1, -1, 40]), &walker);
   prop_run(env, out, &walk_sub, walks, stream, strat, &walker);
 }
 
